@@ -106,7 +106,7 @@ class Engine(object):
         self.policy = FaultPolicy.draw(
             t, ["req_loss", "rep_loss", "rep_delay", "rep_dup", "req_delay",
                 "req_dup", "retryable_rc", "fatal_rc", "host_stall",
-                "clock_jump_fwd", "clock_jump_back", "partition"],
+                "clock_jump_fwd", "clock_jump_back", "partition", "rep_batch"],
             self.timeout)
         self.pre_advance = [0, 0, 0, 0xfff0, 0xffff, 0x7fff][t.draw(6)]
         self.net = SimNetwork(w, self.policy)
@@ -633,6 +633,7 @@ class Engine(object):
             w.sim.drain(6 * (self.timeout + 0.3) + 1.0)
             for s in self.net.sockets:
                 s.inbox.clear()
+                del s.held[:]
             t.begin_tail()
             self.run_burst(1 + t.draw(20), self.window, heal=True)
         finally:
